@@ -307,6 +307,8 @@ ImplEmode(banks, bal) ==
 
 \* weighted (asset, liability) value of one slot, or the error the valuation raises; req in {"Init","Maint","Equity"};
 \* em: the reconciled e-mode configuration (tag -> weights).  calc_weighted_asset_value / calc_weighted_liab_value.
+\* balances of Drift-backed banks (asset tag 4) are kept in Drift's 9-decimal scaled units (get_balance_decimals)
+BalDecI(b) == IF b.cfg.asset_tag = 4 THEN 9 ELSE b.dec
 SlotValue(b, s, req, em) ==
   LET side == SideOf(s) px == PxOf(b)
       p == IF req = "Maint" THEN px.pRT ELSE px.pTW
@@ -324,15 +326,15 @@ SlotValue(b, s, req, em) ==
                     THEN BMax(bw, IF req = "Init" THEN em[t].init ELSE IF req = "Maint" THEN em[t].maint ELSE FOne)
                     ELSE bw
               w == IF req = "Init" /\ ~BIsZero(b.cfg.init_limit)
-                   THEN LET tv == CalcValueNoW(AssetAmount(b, b.tas), low, b.dec) lim == FOfBig(b.cfg.init_limit) IN
+                   THEN LET tv == CalcValueNoW(AssetAmount(b, b.tas), low, BalDecI(b)) lim == FOfBig(b.cfg.init_limit) IN
                         IF BGt(tv, lim) THEN FMul(w0, FDiv(lim, tv)) ELSE w0
                    ELSE w0
-          IN <<CalcValue(AssetAmount(b, s.a), low, b.dec, w), BZero>>
+          IN <<CalcValue(AssetAmount(b, s.a), low, BalDecI(b), w), BZero>>
   ELSE IF side = "L" THEN
      IF px.load # "ok" THEN E(px.load)
      ELSE IF IsErr(c) THEN c
      ELSE LET w == IF req = "Init" THEN b.cfg.lw_init ELSE IF req = "Maint" THEN b.cfg.lw_maint ELSE FOne IN
-          <<BZero, CalcValue(LiabAmount(b, s.l), BAdd(p, c.v), b.dec, w)>>
+          <<BZero, CalcValue(LiabAmount(b, s.l), BAdd(p, c.v), BalDecI(b), w)>>
   ELSE <<BZero, BZero>>
 RECURSIVE HealthSum(_, _, _, _, _)
 HealthSum(banks, bal, i, req, em) ==
